@@ -35,20 +35,37 @@ pub fn gen_any_one(this: &Bitboard) -> Vec<Move> {
             if SEL_N < 2 { SEL[SEL_N] = q; }
             SEL_N += 1;
         }
-        if unsafe { RESTRICT_ILLEGAL } {
-            // c13_san: only the error paths of uci_to_pgn are in the claim
-            let pos = unsafe { CUR_POS.unwrap() };
-            sym::assume(!legal(&pos, q.0, q.1, q.2));
-        }
         vec![mv]
     } else {
         Vec::new()
     }
 }
 
+/// Stub target for `Bitboard::is_current_in_check` in `c13_san` only: the first call `uci_to_pgn` makes after
+/// its validity check has accepted the move.  Cutting the path there ends the (unclaimed, and for CBMC
+/// unaffordable) SAN-building success path right after the check that guards it; the error paths - the
+/// claim - do not call it.
+#[cfg(kani)]
+pub fn cut_success_path(_this: &Bitboard) -> bool {
+    sym::assume(false);
+    false
+}
+
+/// Stub target for `Move::to_uci_string` (which is one `format!` over three freshly allocated strings - the
+/// part CBMC cannot afford): an arbitrary ASCII string of 4 or 5 bytes.
+#[cfg(kani)]
+pub fn uci_string_any(_mv: &inkayaku_board::Move) -> String {
+    format_any_string()
+}
+
 /// Stub target for `alloc::fmt::format`: an arbitrary ASCII string of 4 or 5 bytes.
 #[cfg(kani)]
 pub fn format_any(_args: core::fmt::Arguments<'_>) -> String {
+    format_any_string()
+}
+
+#[cfg(kani)]
+fn format_any_string() -> String {
     let b: [u8; 5] = [sym::u8() & 127, sym::u8() & 127, sym::u8() & 127, sym::u8() & 127, sym::u8() & 127];
     let five = sym::bool();
     let v = if five { vec![b[0], b[1], b[2], b[3], b[4]] } else { vec![b[0], b[1], b[2], b[3]] };
@@ -226,23 +243,28 @@ pub fn c13_all(kinds: &[u8], turn: u8, optional: bool) {
     core::mem::forget(moves);
 }
 
-/// uci_to_pgn on an illegal or unknown move: Err and the board is unchanged.
+/// uci_to_pgn on an illegal or unknown move: Err and the board is unchanged.  (Under Kani the success path
+/// is cut by `cut_success_path`; natively a legal selected move simply ends the replay.)
 pub fn c13_san(kinds: &[u8], turn: u8, optional: bool) {
     let (pos, mut bb) = any_pos(kinds, turn, optional);
     set_pos(&pos, true);
     let (tb, tl, _sel) = text_for(&bb);
-    #[cfg(not(kani))]
-    if let Some(q) = _sel { sym::assume(!legal(&pos, q.0, q.1, q.2)); }
     let s0 = snap(&bb);
     let r = bb.uci_to_pgn(as_str(&tb, tl));
     #[cfg(not(kani))]
     sym::note("board_after", crate::native_util::describe(&bb));
     match &r {
         Ok(_) => {
-            assert!(false, "C13 uci_to_pgn produced SAN for an illegal or unknown move");
+            #[cfg(not(kani))]
+            {
+                let q = _sel.unwrap_or((0, 0, 0));
+                assert!(_sel.is_some() && legal(&pos, q.0, q.1, q.2), "C13 uci_to_pgn produced SAN for an illegal or unknown move");
+            }
         }
-        Err(MoveFromUciError::MoveIsNotValid(_)) => {
+        Err(MoveFromUciError::MoveIsNotValid(m)) => {
             cov!(true, "uci_to_pgn rejects an illegal move");
+            let k = move_key(m);
+            assert!(!legal(&pos, k.0, k.1, k.2), "C13 uci_to_pgn rejected a legal move as not valid");
             assert!(same(&bb, &s0), "C13 uci_to_pgn rejected an illegal move but left the position changed");
         }
         Err(_) => {
